@@ -346,11 +346,14 @@ pub struct Knobs {
     pub max_write: usize,
     /// read() returns at most this many bytes per call (legal short read).
     pub max_read: usize,
+    /// Every n-th read()/write() call on a simulated file is interrupted by a signal first
+    /// (returns EINTR, nothing transferred; legal, the caller retries). 0 = never.
+    pub eintr_every: u32,
 }
 
 impl Default for Knobs {
     fn default() -> Self {
-        Knobs { max_write: usize::MAX, max_read: usize::MAX }
+        Knobs { max_write: usize::MAX, max_read: usize::MAX, eintr_every: 0 }
     }
 }
 
@@ -376,6 +379,8 @@ pub struct SimFs {
     pub ops_total: u64,
     pub short_writes: u64,
     pub short_reads: u64,
+    pub eintrs: u64,
+    rw_calls: u64,
 }
 
 type R<T> = Result<T, i32>;
@@ -396,6 +401,8 @@ impl SimFs {
             ops_total: 0,
             short_writes: 0,
             short_reads: 0,
+            eintrs: 0,
+            rw_calls: 0,
         }
     }
 
@@ -413,12 +420,26 @@ impl SimFs {
         self.ops_total = 0;
         self.short_writes = 0;
         self.short_reads = 0;
+        self.eintrs = 0;
+        self.rw_calls = 0;
     }
 
     /// Process exit: descriptors vanish (no durable effect).
     pub fn end_process(&mut self) {
         self.fds.clear();
         self.ofds.clear();
+    }
+
+    /// Legal-but-unusual: a signal interrupts every n-th read()/write() before any byte moves.
+    fn maybe_eintr(&mut self) -> R<()> {
+        if self.knobs.eintr_every > 0 {
+            self.rw_calls += 1;
+            if self.rw_calls % self.knobs.eintr_every as u64 == 0 {
+                self.eintrs += 1;
+                return Err(libc::EINTR);
+            }
+        }
+        Ok(())
     }
 
     fn fire(&mut self, kind: &'static str) {
@@ -545,6 +566,7 @@ impl SimFs {
         if flags & libc::O_ACCMODE == libc::O_WRONLY {
             return Err(libc::EBADF);
         }
+        self.maybe_eintr()?;
         if let Some(e) = self.faults.read_errno {
             self.fire("read_error");
             return Err(e);
@@ -615,6 +637,7 @@ impl SimFs {
         if flags & libc::O_ACCMODE == libc::O_RDONLY {
             return Err(libc::EBADF);
         }
+        self.maybe_eintr()?;
         if flags & libc::O_APPEND != 0 {
             off = self.disk.inodes[&ino].data.len() as u64;
         }
